@@ -209,4 +209,18 @@ PROPS = {
         quick=dict(checks=120, timeout=900),
         thorough=dict(checks=500, shards=8, timeout=3000),
     ),
+    "C19": dict(
+        run="^TestC19$",
+        level="exploration",
+        rule=("scripts for a scripted HTTP endpoint (an http.RoundTripper, no sockets): 1-12 (thorough: 30) messages with JSON payloads / attribute maps / ordering keys as in C02, each with a planned "
+              "sequence of replies per push - 0-2 failures drawn from every non-success status 100-599 and transport errors (quick: a seed-dependent seventh of 200-599 plus the neighbours of the "
+              "success codes; thorough: all 400), then a success (200/201/202/204/102) - fast, held 5-120 ms so that replies complete out of order, or slow (a real 1.05 s, at most 3 per script); "
+              "one in four scripts runs through the services push manager with the subscription's push_config set over gRPC, the others through a bare pusher; oracle: every POST body is the "
+              "documented envelope (base64 payload equal as JSON value, attributes, messageId == Publish id, orderingKey, RFC 3339 publishTime, subscription, deliveryAttempt == push number), a "
+              "success is final (never pushed again, delivery acknowledged in storage), any other outcome is followed by another push, concurrency seen by the endpoint <= min(1000, 1 + fast "
+              "successes so far); non-trivial = a message failed at least once before succeeding and the window grew beyond 1; distinct by hash of the script"),
+        assumptions=["real clock (the pusher's fast/slow threshold and the HTTP round trip are wall-clock); retry policy 100-200 ms", "bounded waits with 3-of-3 confirmation for the 'pushed again' / 'pushed at all' clauses"],
+        quick=dict(checks=30, timeout=900),
+        thorough=dict(checks=120, shards=8, timeout=3000),
+    ),
 }
